@@ -80,7 +80,8 @@ def _one_seed(prop, sdir, root):
     """A seeded change written by an independent sub-agent (seeded/<id>/patch.diff): the rule set must report it, unless it
     is one of the documented misses (meta.json lists no rule of this property for it)."""
     meta = json.loads((sdir / "meta.json").read_text())
-    expect = "fire" if prop in meta.get("caught_by", {}) else "documented-miss"
+    # a seed is expected to be reported unless its miss is documented with a reason; the recorded matrix result alone does not excuse it
+    expect = "documented-miss" if meta.get("missed_reason") and prop not in meta.get("caught_by", {}) else "fire"
     tmp = Path(tempfile.mkdtemp(prefix=f"sa_seed_{prop}_"))
     try:
         shutil.copytree(root / "pdb2pqr", tmp / "pdb2pqr", ignore=shutil.ignore_patterns("__pycache__"))
